@@ -395,7 +395,10 @@ class TextNode(Node):
         block_separator: str = "",
         leaf_text: Callable[["Node"], str] | str = "",
     ) -> str:
-        return self.text[from_:to]
+        # offsets count UTF-16 code units, like every other position
+        return self.text.encode("utf-16-le")[2 * max(from_, 0) : 2 * max(to, 0)].decode(
+            "utf-16-le",
+        )
 
     @property
     def node_size(self) -> int:
